@@ -1032,7 +1032,7 @@ def obsHead (m : Mem) : String :=
   s!"dirty={if m.dirty then 1 else 0} ws={m.walSize} pe={m.payloadEnd} de={m.dataEnd} ft={m.footer} " ++
   s!"cap={m.capacityLimit} ve={if m.vecEnabled then 1 else 0} vec={showVec m.vec} time={showTime m.time} " ++
   s!"td={if m.tantivyDirty then 1 else 0} q={showNats m.queue} cards={showNats m.cards} " ++
-  s!"er={showNats (sortBy natLe m.enrRecs)} sk={showNats m.sketch} " ++
+  s!"er={showNats (sortBy natLe m.enrRecs)} sk={showNats (sortBy natLe m.sketch)} " ++
   s!"batch={match m.batch with | none => "-" | some true => "1" | some false => "0"}"
 
 def obs (m : Mem) : String :=
